@@ -8,12 +8,26 @@ fail=0; n=0
 for d in seeded/${1:-}*/; do
   id=$(basename $d); prop=$(python3 -c "import json;print(json.load(open('$d/meta.json'))['breaks_property'])")
   atbase=$(python3 -c "import json;print(json.load(open('$d/meta.json')).get('run_at_base',''))")
+  quiet=$(python3 -c "import json;print(json.load(open('$d/meta.json')).get('expect_on_current_tree',''))")
+  if [ "$quiet" = "quiet" ]; then
+    # a change whose effect depended on a defect that has since been fixed: harmless now, and must not be reported
+    git -C /repo apply /verif/$d/patch.diff
+    ./bin/templvet -repo /repo -property $prop -tier quick -verif /tmp/seeds_regress_verif > /tmp/seeds_regress_out.txt 2>&1; rc=$?
+    git -C /repo checkout -q -- . ; git -C /repo clean -qfd
+    n=$((n+1))
+    if [ $rc -eq 0 ]; then echo "ok   $id ($prop): quiet, as expected (neutralised by a later fix)"; else echo "FALSE-ALARM $id ($prop) exit=$rc: $(grep -m1 '^VIOLATED\|^UNDECIDED' /tmp/seeds_regress_out.txt | cut -c1-110)"; fail=$((fail+1)); fi
+    continue
+  fi
   if [ -n "$atbase" ] || ! git -C /repo apply --check /verif/$d/patch.diff 2>/dev/null; then
     # the tree has moved on under this patch (a later fix: commit touched the same lines): run it on its base commit in a scratch worktree
     base=$(python3 -c "import json;print(json.load(open('$d/meta.json')).get('base_commit',''))")
     wt=/tmp/seeds_regress_wt; git -C /repo worktree remove --force $wt 2>/dev/null; git -C /repo worktree add -q --detach $wt $base || { echo "SKIP $id"; continue; }
+    # what the base commit itself violates (defects repaired by later fix: commits) does not count for the seed
+    ./bin/templvet -repo $wt -property $prop -tier quick -verif /tmp/seeds_regress_verif 2>&1 | grep '^VIOLATED\|^UNDECIDED' | sed 's/\] .*/]/' | sort -u > /tmp/seeds_regress_base.txt
     git -C $wt apply /verif/$d/patch.diff
-    ./bin/templvet -repo $wt -property $prop -tier quick -verif /tmp/seeds_regress_verif > /tmp/seeds_regress_out.txt 2>&1; rc=$?
+    ./bin/templvet -repo $wt -property $prop -tier quick -verif /tmp/seeds_regress_verif > /tmp/seeds_regress_all.txt 2>&1; rc=$?
+    grep '^VIOLATED\|^UNDECIDED' /tmp/seeds_regress_all.txt | while IFS= read -r line; do k=$(printf '%s' "$line" | sed 's/\] .*/]/'); grep -qxF -- "$k" /tmp/seeds_regress_base.txt || printf '%s\n' "$line"; done > /tmp/seeds_regress_out.txt
+    [ -s /tmp/seeds_regress_out.txt ] || rc=0
     git -C /repo worktree remove --force $wt
     id="$id@$base"
   else
@@ -25,4 +39,4 @@ for d in seeded/${1:-}*/; do
   if [ $rc -eq 1 ]; then echo "ok   $id ($prop): $(grep -m1 '^VIOLATED\|^UNDECIDED' /tmp/seeds_regress_out.txt | cut -c1-110)"; else echo "MISS $id ($prop) exit=$rc"; fail=$((fail+1)); fi
 done
 echo "$n seeds, $fail missed"
-rm -rf /tmp/seeds_regress_verif /tmp/seeds_regress_out.txt
+rm -rf /tmp/seeds_regress_verif /tmp/seeds_regress_out.txt /tmp/seeds_regress_base.txt /tmp/seeds_regress_all.txt
